@@ -22,6 +22,9 @@ def run(ctx, replay=None):
         kernlib.mc_replay(ctx, "KernelMC_c04.cfg", label="KernelMC/c04 3x2")
         kernlib.mc_replay(ctx, "KernelMC_c04.cfg", {"MaxProc = 3": "MaxProc = 2", "MaxOps = 2": "MaxOps = 3", "MaxEv = 9": "MaxEv = 8"},
                           label="KernelMC/c04 2x3")
+        # beyond the exhaustive bound: random deep behaviours of the same specification (TLC -simulate), replayed likewise
+        kernlib.mc_replay(ctx, "KernelMC_c04.cfg", {"MaxProc = 3": "MaxProc = 4", "MaxOps = 2": "MaxOps = 4", "MaxEv = 9": "MaxEv = 22"},
+                          label="KernelMC/c04 simulate 4 procs x 4-5 ops", simulate=4000, depth=400)
         kernlib.gen_validate(ctx, 20000, KINDS)
         kernlib.gen_validate(ctx, 5000, KINDS, max_procs=6, max_ops=8, max_events=40, label="generated-large")
         kernlib.gen_validate(ctx, 25000, MIXED, label="generated-interrupts-and-conditions", orphan_finding="F19b")
